@@ -130,6 +130,33 @@ int main(int argc, char **argv)
 		for (size_t i = 0; i < n2; i++) for (int b = 0; b < 8; b += 7) { c2[i] ^= (uint8_t)(1 << b); cq = c2; ql = n2; snprintf(nm, sizeof nm, "privatekeyinfo_flip:%zu.%d", i, b);
 			cap_begin(); rc = sm2_private_key_info_from_der(&kr, &at, &al, &cq, &ql); secret(d, 32); if (o2) secret(o2, 32); cap_end(nm, 0, rc); c2[i] ^= (uint8_t)(1 << b); }
 	}
+	// ---- SM9 master and user private keys: every single-byte change of their DER, the master secret written as 32 raw octets without the 00 pad a DER INTEGER
+	// with the top bit set needs (a 'negative' INTEGER the generic decoder refuses), and the encrypted PKCS#8 forms with the right and a wrong password ----
+	{
+		SM9_SIGN_MASTER_KEY sm; SM9_ENC_MASTER_KEY em; SM9_SIGN_KEY sk; SM9_ENC_KEY ek; memset(&sm, 0, sizeof sm); memset(&em, 0, sizeof em);
+		uint8_t ks9[32], ke9[32]; for (int i = 0; i < 32; i++) { ks9[i] = (uint8_t)(0x91 + i * 5); ke9[i] = (uint8_t)(0xa3 + i * 3); } ks9[0] = 0x9b; ke9[0] = 0x8d;      // top bit set, below N
+		sm9_z256_from_bytes(sm.ks, ks9); sm9_z256_twist_point_mul_generator(&sm.Ppubs, sm.ks); sm9_z256_from_bytes(em.ke, ke9); sm9_z256_point_mul_generator(&em.Ppube, em.ke);
+		sm9_sign_master_key_extract_key(&sm, "Alice", 5, &sk); sm9_enc_master_key_extract_key(&em, "Bob", 3, &ek);
+		uint8_t dsb[65], deb[129]; sm9_z256_point_to_uncompressed_octets(&sk.ds, dsb); sm9_z256_twist_point_to_uncompressed_octets(&ek.de, deb);
+		uint8_t b1[1024], b2[1024]; size_t n1 = 0, n2 = 0; uint8_t *q; const uint8_t *cq; size_t ql; char nm[64]; SM9_SIGN_MASTER_KEY t1; SM9_ENC_MASTER_KEY t2; SM9_SIGN_KEY t3; SM9_ENC_KEY t4;
+		q = b1; sm9_sign_master_key_to_der(&sm, &q, &n1); q = b2; sm9_enc_master_key_to_der(&em, &q, &n2);
+		uint8_t *o1 = memmem(b1, n1, ks9, 32), *o2 = memmem(b2, n2, ke9, 32);
+		for (size_t i = 0; i < n1; i++) { b1[i] ^= 0x01; cq = b1; ql = n1; snprintf(nm, sizeof nm, "sm9_sign_master_flip:%zu", i); cap_begin(); rc = sm9_sign_master_key_from_der(&t1, &cq, &ql); secret(ks9, 32); if (o1) secret(o1, 32); cap_end(nm, 0, rc); b1[i] ^= 0x01; }
+		for (size_t i = 0; i < n2; i++) { b2[i] ^= 0x80; cq = b2; ql = n2; snprintf(nm, sizeof nm, "sm9_enc_master_flip:%zu", i); cap_begin(); rc = sm9_enc_master_key_from_der(&t2, &cq, &ql); secret(ke9, 32); if (o2) secret(o2, 32); cap_end(nm, 0, rc); b2[i] ^= 0x80; }
+		// the secret as INTEGER of 32 octets without the 00 pad: drop the pad octet and shorten the two enclosing lengths
+		if (o1 && o1 > b1 + 3 && o1[-1] == 0x00 && o1[-2] == 33) { uint8_t c[1024]; size_t off = (size_t)(o1 - b1); memcpy(c, b1, off - 1); memcpy(c + off - 1, o1, n1 - off); c[off - 2] = 32; if (c[1] == 0x81) c[2]--; else c[1]--;
+			cq = c; ql = n1 - 1; cap_begin(); rc = sm9_sign_master_key_from_der(&t1, &cq, &ql); secret(ks9, 32); cap_end("sm9_sign_master_unpadded_integer", 0, rc); }
+		if (o2 && o2 > b2 + 3 && o2[-1] == 0x00 && o2[-2] == 33) { uint8_t c[1024]; size_t off = (size_t)(o2 - b2); memcpy(c, b2, off - 1); memcpy(c + off - 1, o2, n2 - off); c[off - 2] = 32; if (c[1] == 0x81) c[2]--; else c[1]--;
+			cq = c; ql = n2 - 1; cap_begin(); rc = sm9_enc_master_key_from_der(&t2, &cq, &ql); secret(ke9, 32); cap_end("sm9_enc_master_unpadded_integer", 0, rc); }
+		// user keys
+		n1 = n2 = 0; q = b1; sm9_sign_key_to_der(&sk, &q, &n1); q = b2; sm9_enc_key_to_der(&ek, &q, &n2);
+		for (size_t i = 0; i < n1; i += 1) { b1[i] ^= 0x04; cq = b1; ql = n1; snprintf(nm, sizeof nm, "sm9_sign_key_flip:%zu", i); cap_begin(); rc = sm9_sign_key_from_der(&t3, &cq, &ql); secret(dsb + 1, 32); secret(dsb + 33, 32); cap_end(nm, 0, rc); b1[i] ^= 0x04; }
+		for (size_t i = 0; i < n2; i += 1) { b2[i] ^= 0x04; cq = b2; ql = n2; snprintf(nm, sizeof nm, "sm9_enc_key_flip:%zu", i); cap_begin(); rc = sm9_enc_key_from_der(&t4, &cq, &ql); secret(deb + 1, 32); secret(deb + 65, 32); cap_end(nm, 0, rc); b2[i] ^= 0x04; }
+		// encrypted forms
+		n1 = 0; q = b1; rc = sm9_sign_master_key_info_encrypt_to_der(&sm, pass, &q, &n1);
+		cq = b1; ql = n1; cap_begin(); rc = sm9_sign_master_key_info_decrypt_from_der(&t1, pass, &cq, &ql); secret(ks9, 32); secret(pass, strlen(pass)); cap_end("sm9_sign_master_pkcs8_decrypt", 0, rc);
+		cq = b1; ql = n1; cap_begin(); rc = sm9_sign_master_key_info_decrypt_from_der(&t1, "Wr0ngPassw0rd!!", &cq, &ql); secret(ks9, 32); secret(pass, strlen(pass)); secret("Wr0ngPassw0rd!!", 15); cap_end("sm9_sign_master_pkcs8_wrong_password", 0, rc);
+	}
 	// ---- plain (unencrypted) private-key PEM files, in the forms a reader meets: as the library writes them, and a PrivateKeyInfo that carries the optional
 	// attributes field (accepted with a warning): the scalar stays off fd 1/2 on all of them ----
 	{
